@@ -52,7 +52,7 @@ func newFelix(r *core.R, name string, monitor bool) *felix {
 	f := &felix{held: map[string]bool{}, r: r}
 	conf := config.New()
 	conf.FelixHostname = localHost
-	conf.Encapsulation = config.Encapsulation{VXLANEnabled: true, IPIPEnabled: true}
+	conf.Encapsulation = config.Encapsulation{VXLANEnabled: true, VXLANEnabledV6: true, IPIPEnabled: true}
 	f.conf = conf
 	f.dp = newModelDP(r, name, monitor, &f.inSync)
 	f.seq = calc.NewEventSequencer(conf) // the real config object, exactly as AsyncCalcGraph wires it
@@ -114,7 +114,7 @@ func newAsyncFelix(r *core.R, name string, monitor bool) *felix {
 	f := &felix{held: map[string]bool{}, r: r}
 	conf := config.New()
 	conf.FelixHostname = localHost
-	conf.Encapsulation = config.Encapsulation{VXLANEnabled: true, IPIPEnabled: true}
+	conf.Encapsulation = config.Encapsulation{VXLANEnabled: true, VXLANEnabledV6: true, IPIPEnabled: true}
 	f.conf = conf
 	f.dp = newModelDP(r, name, monitor, &f.inSync)
 	f.dp.noFlushBoundaries = true
@@ -228,6 +228,14 @@ func run(r *core.R) {
 			desc = e.variants[vi-1].desc
 			if e.variants[vi-1].invalid {
 				r.Fault("invalid_version")
+			}
+		}
+		if e.name == "node/"+localHost && vi > 0 {
+			if old := hist[i][delivered[i]]; old > 0 && old != vi {
+				a, b := strings.Fields(e.variants[old-1].desc), strings.Fields(desc)
+				if len(a) == 2 && len(b) == 2 && a[0] != b[0] && a[1] != b[1] {
+					r.Probe("local_node_readdressed_both_families")
+				}
 			}
 		}
 		r.Op("deliver %s v%d: %s", e.name, ver, desc)
@@ -367,6 +375,42 @@ func run(r *core.R) {
 	}
 	main.flush()
 	r.Probe("flushes")
+	// ---- quiet tail: a few isolated changes, each delivered and flushed on its own with nothing after it that
+	// could re-dirty what it failed to invalidate (missed-invalidation bugs otherwise hide behind later churn)
+	for t, nTail := 0, src.Intn(4, "tail_changes"); t < nTail; t++ {
+		var infra, other []int
+		for i, e := range u.ents {
+			switch e.kind {
+			case "node", "pool", "block", "tier", "profile-labels", "hostconfig":
+				infra = append(infra, i)
+			default:
+				other = append(other, i)
+			}
+		}
+		pickFrom := other
+		if len(infra) > 0 && (len(other) == 0 || src.Chance(600, "tail_infra")) {
+			pickFrom = infra
+		}
+		i := pickFrom[src.Intn(len(pickFrom), "tail_entity")]
+		e := u.ents[i]
+		var cands []int
+		for vi := 0; vi <= len(e.variants); vi++ {
+			if vi != hist[i][latest(i)] && (vi == 0 || !e.variants[vi-1].invalid) {
+				cands = append(cands, vi)
+			}
+		}
+		if len(cands) == 0 {
+			continue
+		}
+		vi := cands[src.Intn(len(cands), "tail_variant")]
+		hist[i] = append(hist[i], vi)
+		r.Probe("tail_isolated_change")
+		r.Logf("tail write %s -> v%d (variant %d)", e.name, latest(i), vi)
+		var batch []api.Update
+		deliverVersion(&batch, i, latest(i))
+		main.deliver(batch)
+		main.flush()
+	}
 	if main.async != nil {
 		for i := 0; i < 40; i++ {
 			main.asyncSettle(50)
